@@ -128,12 +128,16 @@ class HashFileDB(ObjectDB):
         oid_cache_paths = {o: self.oid_to_path(o) for o in oids}
         for o, cache_path in oid_cache_paths.items():
             try:
-                if verify:
+                # NOTE: a transfer that failed may have left a partial copy
+                # under the object's name
+                if verify or o in failed:
                     self.check(o, check_hash=True)
                 self.protect(cache_path)
             except ObjectFormatError as exc:
                 # check() has removed the corrupted object, so it must not be
                 # counted (or reported by the caller) as added
+                if o in failed:
+                    continue
                 if on_error is not None:
                     transferred -= 1
                     on_error(o, exc)
